@@ -29,7 +29,8 @@
 (***************************************************************************)
 EXTENDS FileLogger
 
-CONSTANTS MaxLogs, MaxCycles, MaxAdv, MaxReads, MaxExt, MaxFaults, MaxLoggers, MaxSwitch
+CONSTANTS MaxLogs, MaxCycles, MaxAdv, MaxReads, MaxExt, MaxFaults, MaxLoggers, MaxSwitch,
+          Slim      \* TRUE: one family of log calls, no separate banner lines, no settings change (the fault / two-logger configurations)
 
 VARIABLES calls, cycles, advs, reads, exts, faults, switches,
           fday       \* the day of the last external fault (-1: none)
@@ -81,7 +82,7 @@ Live == reads = 0                    \* a Read is a leaf of the exploration
 MCOpen == Live /\ Open(Id, Oname, 2, MCBanner) /\ UNCHANGED cnt
 
 MCLog == /\ Live /\ calls < MaxLogs /\ calls' = calls + 1 /\ UNCHANGED <<cycles, advs, reads, exts, faults, switches, fday>>
-         /\ \E kind \in {"W", "I", "P"}, s \in Msgs, pid \in Pids :
+         /\ \E kind \in (IF Slim THEN {"P"} ELSE {"W", "I", "P"}), s \in Msgs, pid \in Pids :
               \/ LogDrop(kind)
               \/ LogSuppress(kind, pid, s)
               \/ LogEmit(kind, pid, s, St, 2)
@@ -96,7 +97,7 @@ MCCycle == /\ Live
                  /\ \E ran \in BOOLEAN :
                       \/ CycleA("none", <<>>, {}, ran)
                       \/ Design = "repaired" /\ CycleA("swap", MCBanner, {}, ran)
-                      \/ Design = "repaired" /\ CycleA("swap", <<>>, {}, ran)
+                      \/ Design = "repaired" /\ ~ Slim /\ CycleA("swap", <<>>, {}, ran)
                       \/ Design = "asis" /\ CycleA("close", <<>>, {}, ran)
                       \/ CycleA("down", <<>>, {}, ran)
               \/ /\ UNCHANGED cnt
@@ -105,7 +106,7 @@ MCCycle == /\ Live
                     \/ BannerLine(BannerMid(Oname, now, St, <<48>>))
 
 \* keep-days 2, interval 2 s; rotation on or off
-MCConf == /\ Live /\ cycles < MaxCycles /\ calls = 0 /\ conf.keep = 7
+MCConf == /\ Live /\ ~ Slim /\ cycles < MaxCycles /\ calls = 0 /\ conf.keep = 7
           /\ \E rot \in BOOLEAN : Configure(2, 2, 2, rot)
           /\ UNCHANGED cnt
 
